@@ -143,6 +143,21 @@ impl Mempool {
             tx_valid = transaction.validate(&blockchain.utxoset, blockchain, true);
         }
 
+        // the transactions a block generates itself (fee, rebroadcast, placeholder, issuance) are exempt
+        // from the sender and signature checks, because Block::validate recomputes them. nothing
+        // recomputes them here: whatever way they come in, they do not enter the pool - except the
+        // issuance transactions of the genesis block, on a node that holds no block yet
+        if transaction.is_block_generated_type()
+            && !(transaction.transaction_type == TransactionType::Issuance
+                && blockchain.blocks.is_empty())
+        {
+            debug!(
+                "transaction of a block-generated type is not pooled : {:?}",
+                transaction.signature.to_hex()
+            );
+            return;
+        }
+
         // a staking transaction is what the producer of a block affixes to it: bundle_block adds this
         // node's own. one that a peer sent would ride along with it, and a block with two staking
         // transactions is refused by every node, this one included
